@@ -322,6 +322,7 @@ pub fn run_c10_job(job: &Job, slices: &Slices, cfg: &ExploreCfg) -> PairOut {
 fn c10_items() -> Vec<corpus::Item> {
     let mut items = corpus::all_items();
     items.extend(corpus::special_items());
+    items.extend(corpus::option_items());
     let extra = vec![
         ("sl-maxlen", json!({"type":"string","maxLength":4}), vec!["\"abcd\"", "\"a\\nb\""]),
         ("sl-minmax", json!({"type":"string","minLength":2,"maxLength":5}), vec!["\"abcde\""]),
